@@ -24,4 +24,32 @@ maybe theorem C08_len_src (it : Iter) (s : Sys) (h : it.right.len + it.left.len 
     Gen.Iter_len it s = (.ok it.remaining.length, s) := by
   rw [tie_iter_len]; exact C08_len it s h
 
+/-! ### `IterMut` (`iter_mut`, `range_mut`): its own copy of the code in `iter.rs`, translated as `Gen.IterMut_*` -/
+
+maybe theorem C08_over_range_mut_src (sb eb : Bound) (s : Sys) (h : Inv s.buf) (hsb : sb.val < W)
+    (heb : eb.val < W) (he : eb.endNat s.buf.size ≤ s.buf.size)
+    (hs : sb.startNat ≤ eb.endNat s.buf.size) :
+    ∃ it, Gen.IterMut_over_range sb eb s = (.ok it, s) ∧
+      it.remaining = rangeSlots s.buf.start s.buf.cap sb.startNat (eb.endNat s.buf.size) := by
+  rw [tie_itermut_over_range sb eb s h]; exact C08_over_range sb eb s h hsb heb he hs
+
+maybe theorem C08_whole_mut_src (s : Sys) (h : Inv s.buf) :
+    ∃ it, Gen.IterMut_new s = (.ok it, s) ∧
+      it.remaining = windowSlots s.buf.start s.buf.cap s.buf.size := by
+  rw [tie_itermut_new s h]; exact C08_whole s h
+
+maybe theorem C08_next_mut_src (it : Iter) (s : Sys) :
+    ∃ r it', Gen.IterMut_next it s = (.ok (r, it'), s) ∧
+      r = it.remaining.head? ∧ it'.remaining = it.remaining.tail := by
+  rw [tie_itermut_next]; exact ⟨_, _, rfl, (C08_next it).1, (C08_next it).2⟩
+
+maybe theorem C08_next_back_mut_src (it : Iter) (s : Sys) :
+    ∃ r it', Gen.IterMut_next_back it s = (.ok (r, it'), s) ∧
+      r = it.remaining.getLast? ∧ it'.remaining = it.remaining.dropLast := by
+  rw [tie_itermut_next_back]; exact ⟨_, _, rfl, (C08_next_back it).1, (C08_next_back it).2⟩
+
+maybe theorem C08_len_mut_src (it : Iter) (s : Sys) (h : it.right.len + it.left.len < W) :
+    Gen.IterMut_len it s = (.ok it.remaining.length, s) := by
+  rw [tie_itermut_len]; exact C08_len it s h
+
 end CircBuf
